@@ -530,42 +530,45 @@ func run(in input) vh.Result {
 
 	coq := vh.App("C06Case", vh.N(in.Key), vh.N(in.Local), vh.N(in.Gen), vh.N(in.ID), vh.N(in.LEO), vh.N(in.HW), vh.N(in.CP),
 		s0, "["+strings.Join(steps, ";\n  ")+"]")
-	return vh.Result{Coq: coq, Obs: obs, Class: classOf(feat), Trivial: !admitted}
+	return vh.Result{Coq: coq, Obs: map[string]any{"features": featureList(feat), "steps": obs}, Class: classOf(feat), Trivial: !admitted}
 }
 
-// classOf keeps the histogram readable: the reply paths and the guard hits reached by the case.
+// classOf keeps the histogram small: which reply paths the case reached (S stored result,
+// Q quorum receipt, A follower ack, E error reply), whether an ack that went through a reactor
+// handler advanced HW, and how many of the three reactor routes saw an ack above LEO.
 func classOf(f features) string {
-	var parts []string
-	for _, k := range []string{"reply-at-stored", "reply-at-quorum", "reply-at-ack", "reply-err", "stale-fence", "meta-rej", "cancel", "abort"} {
-		if f[k] {
-			parts = append(parts, k)
+	rep := ""
+	for _, kv := range [][2]string{{"reply-at-stored", "S"}, {"reply-at-quorum", "Q"}, {"reply-at-ack", "A"}, {"reply-err", "E"}} {
+		if f[kv[0]] {
+			rep += kv[1]
 		}
 	}
-	g := ""
-	for r := 0; r < 4; r++ {
-		if f[fmt.Sprintf("ack-over-leo-r%d", r)] {
-			g += fmt.Sprint(r)
-		}
+	if rep == "" {
+		rep = "-"
 	}
-	if g != "" {
-		parts = append(parts, "over-leo-routes="+g)
-	}
-	h := ""
-	for r := 0; r < 4; r++ {
+	adv, over := "n", 0
+	for r := 1; r < 4; r++ {
 		if f[fmt.Sprintf("hw-adv-r%d", r)] {
-			h += fmt.Sprint(r)
+			adv = "y"
+		}
+		if f[fmt.Sprintf("ack-over-leo-r%d", r)] {
+			over++
 		}
 	}
-	if h != "" {
-		parts = append(parts, "hw-adv-routes="+h)
-	}
+	c := fmt.Sprintf("replies=%s,reactor-ack-advanced-hw=%s,reactor-routes-with-ack-over-leo=%d", rep, adv, over)
 	if f["CheckInvariants-failed"] {
-		parts = append(parts, "CHECKINVARIANTS-FAILED")
+		c += ",CHECKINVARIANTS-FAILED"
 	}
-	if len(parts) == 0 {
-		return "none"
+	return c
+}
+
+func featureList(f features) []string {
+	names := make([]string, 0, len(f))
+	for k := range f {
+		names = append(names, k)
 	}
-	return strings.Join(parts, ",")
+	sort.Strings(names)
+	return names
 }
 
 // ---- generator ------------------------------------------------------------------------------------
@@ -608,8 +611,8 @@ func genMeta(r *rand.Rand, local uint64, first bool) op {
 	if first {
 		o.Epoch, o.LEpoch = 1, 1
 	} else {
-		o.Epoch = vh.Pick(r, int64(0), 0, 0, 0, 0, 1, 1, 1, -1, 2)
-		o.LEpoch = vh.Pick(r, int64(0), 0, 0, 0, 0, 1, 1, 1, -1, 2)
+		o.Epoch = vh.Pick(r, int64(0), 0, 0, 0, 0, 0, 0, 1, 1, -1, 2)
+		o.LEpoch = vh.Pick(r, int64(0), 0, 0, 0, 0, 0, 0, 1, 1, -1, 2)
 	}
 	if vh.Chance(r, 0.04) {
 		o.Abs, o.Epoch, o.LEpoch = true, int64(r.IntN(4)), int64(r.IntN(4))
@@ -670,9 +673,10 @@ func genMeta(r *rand.Rand, local uint64, first bool) op {
 }
 
 type genState struct {
-	nextOp  uint64
-	nextMsg uint64
-	used    []uint64
+	nextOp   uint64
+	nextMsg  uint64
+	used     []uint64
+	replicas []uint64 // of the last generated meta (probably the current membership)
 }
 
 func (g *genState) opID(r *rand.Rand) uint64 {
@@ -727,20 +731,23 @@ func genResult(r *rand.Rand, kind string) op {
 	return o
 }
 
-func genAck(r *rand.Rand) op {
+func genAck(r *rand.Rand, g *genState) op {
 	o := op{K: "ack", Route: r.IntN(4)}
-	o.KeyBad = vh.Chance(r, 0.05)
-	if vh.Chance(r, 0.07) {
+	o.KeyBad = vh.Chance(r, 0.04)
+	if vh.Chance(r, 0.05) {
 		o.EpochD = vh.Pick(r, int64(1), -1)
 	}
-	if vh.Chance(r, 0.07) {
+	if vh.Chance(r, 0.05) {
 		o.LEpochD = vh.Pick(r, int64(1), -1)
 	}
 	o.Follower = uint64(1 + r.IntN(4))
+	if len(g.replicas) > 0 && vh.Chance(r, 0.8) {
+		o.Follower = g.replicas[r.IntN(len(g.replicas))]
+	}
 	if vh.Chance(r, 0.04) {
 		o.Follower = vh.Pick(r, uint64(0), 5)
 	}
-	o.VerBad = vh.Chance(r, 0.1)
+	o.VerBad = vh.Chance(r, 0.08)
 	x := r.IntN(100)
 	if o.Route == 2 { // stopped acks are only accepted at exactly LEO
 		switch {
@@ -754,7 +761,7 @@ func genAck(r *rand.Rand) op {
 		return o
 	}
 	switch {
-	case x < 28:
+	case x < 36:
 		o.OffSel, o.OffDelta = 1, 0
 	case x < 52:
 		o.OffSel, o.OffDelta = 1, vh.Pick(r, int64(1), 1, 2, 7)
@@ -785,9 +792,9 @@ func gen(r *rand.Rand, tier string, i int) input {
 		n = 6 + r.IntN(70)
 	}
 	g := &genState{}
-	if vh.Chance(r, 0.85) {
+	if vh.Chance(r, 0.93) {
 		m := genMeta(r, in.Local, true)
-		if vh.Chance(r, 0.85) {
+		if vh.Chance(r, 0.9) {
 			m.Leader, m.LeaderCur = in.Local, false
 			m.Status = uint8(ch.StatusActive)
 			m.KeySel, m.IDSel = vh.Pick(r, 0, 1), 0
@@ -797,17 +804,37 @@ func gen(r *rand.Rand, tier string, i int) input {
 				m.ISR = m.ISR[:len(m.ISR)-1]
 			}
 			m.MinISR = 1 + r.IntN(len(m.ISR))
-			if vh.Chance(r, 0.35) {
+			if vh.Chance(r, 0.5) && len(m.ISR) >= 2 {
+				m.MinISR = 2
+			} else if vh.Chance(r, 0.3) {
 				m.MinISR = 1
 			}
 		}
 		in.Ops = append(in.Ops, m)
+		g.replicas = m.Replicas
 	}
+	inflightLikely := false
 	for len(in.Ops) < n {
-		switch x := r.IntN(100); {
-		case x < 9:
-			in.Ops = append(in.Ops, genMeta(r, in.Local, false))
-		case x < 22:
+		x := r.IntN(100)
+		if inflightLikely && x < 50 {
+			// a proposal is probably in flight: deliver its result
+			kind := "stored"
+			if vh.Chance(r, 0.3) {
+				kind = "quorum"
+			}
+			o := genResult(r, kind)
+			in.Ops = append(in.Ops, o)
+			inflightLikely = o.Stale != 0
+			continue
+		}
+		x = r.IntN(100)
+		switch {
+		case x < 6:
+			m := genMeta(r, in.Local, false)
+			in.Ops = append(in.Ops, m)
+			g.replicas = m.Replicas
+			inflightLikely = false
+		case x < 20:
 			o := op{K: "prop"}
 			k := 1 + r.IntN(4)
 			if vh.Chance(r, 0.03) {
@@ -824,14 +851,18 @@ func gen(r *rand.Rand, tier string, i int) input {
 				o.Batch = o.Ws[0].Op
 			}
 			in.Ops = append(in.Ops, o)
-		case x < 34:
+			inflightLikely = true
+		case x < 33:
 			in.Ops = append(in.Ops, op{K: "one", Op: g.opID(r), Mode: genMode(r), IDs: g.msgIDs(r)})
-		case x < 50:
+			inflightLikely = true
+		case x < 38:
 			in.Ops = append(in.Ops, genResult(r, "stored"))
-		case x < 58:
+			inflightLikely = false
+		case x < 41:
 			in.Ops = append(in.Ops, genResult(r, "quorum"))
+			inflightLikely = false
 		case x < 91:
-			in.Ops = append(in.Ops, genAck(r))
+			in.Ops = append(in.Ops, genAck(r, g))
 		case x < 96:
 			o := op{K: "cancel", Rel: vh.Chance(r, 0.8), Pick: r.IntN(8)}
 			if !o.Rel {
@@ -844,6 +875,7 @@ func gen(r *rand.Rand, tier string, i int) input {
 				o.Batch = 1000 + uint64(r.IntN(int(g.nextOp)+2))
 			}
 			in.Ops = append(in.Ops, o)
+			inflightLikely = false
 		}
 	}
 	return in
